@@ -27,6 +27,8 @@ def assigned_names(stmts):
         for n in ast.walk(s):
             if isinstance(n, ast.Name) and isinstance(n.ctx, ast.Store):
                 out.add(n.id)
+            if isinstance(n, ast.Yield):
+                out.update(('$ycnt', '$yany', '$ylast'))       # ghost state of a generator
     return out
 
 
@@ -45,6 +47,8 @@ def havoc_like(v, name):
         return havoc_seq(v, name)
     if k == 'tuple':
         return VTuple([havoc_like(x, name) for x in v.items])
+    if k == 'opaque' and v.tag == 'ghost':
+        return VOpaque(fresh(name, v.z.sort()), 'ghost')
     if hasattr(v, 'havoc'):
         return v.havoc(name)
     raise Undecided('cannot havoc a local of kind %s (%s)' % (k, name))
